@@ -535,9 +535,9 @@ def nfc_restricted(text, supported, RC):
     return out
 
 
-def shape_line(fid, text):
+def shape_line(fid, text, flags=0, extra=""):
     t = ",".join(f"{c:x}:{i}" for i, c in enumerate(text))
-    return f"shape {fid} l Latn - 0 0 - - - {t}"
+    return f"shape {fid} l Latn - {flags} 0 - - - {t}{extra}"
 
 
 def parse_shape(out):
@@ -660,22 +660,28 @@ def search_strings(ctx, shim, U, RD, RC, r, n_starters, kmax_exh, n_random):
             k = r.range(kmax_exh + 1, 4) if kmax_exh < 4 else 4
             texts.append([s] + [r.choice(marks) for _ in range(k)])
         half = [c for c in comps if r.chance(1, 2)]
+        # the same texts followed by a LATER unrelated cluster `x + variation selector(s)`: the starter + marks
+        # before it must come out as without it (PRESERVE_DEFAULT_IGNORABLES, so the selectors stay visible)
+        later = [(t, [0x78] + vs_run(r)) for t in texts if len(t) > 1 and r.chance(1, 6)]
+        ctx_chars = [0x78] + VS_POOL
         for vname, sup in (("all", sorted(set(leaves) | set(comps))), ("leaves", leaves),
                            ("half", sorted(set(leaves) | set(half)))):
-            g = groups_from_set(sup)
+            g = groups_from_set(sorted(set(sup) | set(ctx_chars)))
             supset = set(sup)
-            lines = [f"font t {build_font(g).hex()}"] + [shape_line("t", t) for t in texts]
+            lines = [f"font t {build_font(g).hex()}"] + [shape_line("t", t) for t in texts] + \
+                    [shape_line("t", t + sfx, flags=4) for t, sfx in later]
             groups.append(lines)
-            meta.append((vname, g, supset, texts))
+            meta.append((vname, g, supset, texts, later))
     outs = vlib.run_groups(shim, groups, timeout=1800)
-    n = nontriv = 0
+    n = nontriv = nbad = 0
     dist = {}
-    for (vname, g, supset, texts), o, grp in zip(meta, outs, groups):
+    for (vname, g, supset, texts, later), o, grp in zip(meta, outs, groups):
         inv = {}
         for s_, e_, g_ in g:
             for c in range(s_, e_ + 1):
                 inv[g_ + (c - s_)] = c
-        for t, out, ln in zip(texts, o[1:], grp[1:]):
+        cases = [(t, []) for t in texts] + later
+        for (t, sfx), out, ln in zip(cases, o[1:], grp[1:]):
             n += 1
             got = parse_shape(out)
             if len(t) == 1:
@@ -685,24 +691,31 @@ def search_strings(ctx, shim, U, RD, RC, r, n_starters, kmax_exh, n_random):
                 expect = nfc_restricted(t, lambda c: c in supset, RC)
             if vname == "leaves" and len(t) > 1:
                 assert expect == nfd(t)
+            expect = expect + sfx
+            t = t + sfx
             want = [glyph_of(g, c) for c in expect]
-            key = f"{vname}:{len(t) - 1}marks"
+            key = f"{vname}:{len(t) - 1 - len(sfx)}marks" + (":later-selector-cluster" if sfx else "")
             dist[key] = dist.get(key, 0) + 1
             if expect != t:
                 nontriv += 1
             if got != want:
+                nbad += 1
+                if nbad > 3:
+                    continue
                 gotc = [inv.get(x, 0) for x in (got or [])]
                 ctx.violation(f"{vname}: text {['%04X' % c for c in t]} shaped to {['%04X' % c for c in gotc]}, "
                               f"reference (NFC restricted to the font's characters) {['%04X' % c for c in expect]}",
                               {"stage": "search", "stream": "strings", "font_line": grp[0], "request": ln,
                                "expected_glyphs": want, "observed": out, "variant": vname})
-    ctx.note_search("strings", n, nontriv, distribution=dist, starters=len(chosen), marks=len(marks),
+    ctx.note_search("strings", n, nontriv, distribution=dist, starters=len(chosen), marks=len(marks), deviations=nbad,
                     rule="Latin/Greek/Cyrillic starter (every first component of a primary composite) + all strings of "
                          f"0..{kmax_exh} marks (the {len(marks)} BMP second components) + random longer ones up to 4, shaped "
                          "with cmap-only fonts: (all) every composite of the base letter, (leaves) base letters and marks "
                          "only, (half) a random half of the composites; expected = UAX #15 composition over CPython "
-                         "data restricted to supported composites (= NFC / NFD for all / leaves); non-trivial = "
-                         "expected differs from the input")
+                         "data restricted to supported composites (= NFC / NFD for all / leaves); one text in six is "
+                         "shaped again followed by a later unrelated cluster x + 1..3 variation selectors (the font has "
+                         "their glyphs, PRESERVE_DEFAULT_IGNORABLES): same expectation, then x and the selectors; "
+                         "non-trivial = expected differs from the input")
 
 
 def search_reorder(ctx, shim, U, r, per_combo, cross):
@@ -730,7 +743,7 @@ def search_reorder(ctx, shim, U, r, per_combo, cross):
                         pairs.append((m1, m2))
         if not pairs:
             continue
-        g = groups_from_set([0x61] + ms + generic)
+        g = groups_from_set([0x61, 0x78] + VS_POOL + ms + generic)
         lines = [f"font r {build_font(g).hex()}"]
         for m1, m2 in pairs:
             third = r.choice(ms)
@@ -741,30 +754,166 @@ def search_reorder(ctx, shim, U, r, per_combo, cross):
                          else shape_line("r", [0x61, m1, m2, third]))
             lines.append(shape_line("r", [0x61, third, m2, m1]) if U.ccc[third] <= min(U.ccc[m1], U.ccc[m2])
                          else shape_line("r", [0x61, m2, m1, third]))
+            # and on a precomposed base the font lacks (U+00E4: the font has a and U+0308), followed by a later
+            # unrelated cluster x + variation selector(s)
+            sfx = [0x78] + vs_run(r)
+            lines.append(shape_line("r", [0xE4, m1, m2] + sfx, flags=4))
+            lines.append(shape_line("r", [0xE4, m2, m1] + sfx, flags=4))
         groups.append(lines)
         meta.append(pairs)
     outs = vlib.run_groups(shim, groups, timeout=1800)
-    n = nontriv = 0
+    n = nontriv = nbad = 0
     classes = set()
     for pairs, o, grp in zip(meta, outs, groups):
         for i, (m1, m2) in enumerate(pairs):
-            for off in (0, 2):
-                a, b = o[1 + 4 * i + off], o[2 + 4 * i + off]
+            for off in (0, 2, 4):
+                a, b = o[1 + 6 * i + off], o[2 + 6 * i + off]
                 ga, gb = parse_shape(a), parse_shape(b)
                 n += 2
                 nontriv += 2
                 classes.add((U.ccc[m1], U.ccc[m2]))
                 if ga is None or ga != gb or 0 in (ga or [0]):
-                    ctx.violation(f"canonically equivalent mark orders shape differently: U+{m1:04X} (ccc {U.ccc[m1]}, "
-                                  f"modified {U.mcc[m1]}) / U+{m2:04X} (ccc {U.ccc[m2]}, modified {U.mcc[m2]}): {ga} vs {gb}",
+                    nbad += 1
+                    if nbad > 3:
+                        continue          # leave room for the other streams' reports (the count is in the evidence)
+                    texts = [grp[1 + 6 * i + off].split()[10], grp[2 + 6 * i + off].split()[10]]
+                    what = ("canonically equivalent mark orders shape differently" if ga != gb else
+                            "a character whose whole canonical decomposition the font maps is rendered as .notdef")
+                    ctx.violation(f"{what}: U+{m1:04X} (ccc {U.ccc[m1]}, "
+                                  f"modified {U.mcc[m1]}) / U+{m2:04X} (ccc {U.ccc[m2]}, modified {U.mcc[m2]}), texts "
+                                  f"{texts[0]} / {texts[1]}: {ga} vs {gb}",
                                   {"stage": "search", "stream": "reorder", "font_line": grp[0],
-                                   "request": grp[1 + 4 * i + off], "request2": grp[2 + 4 * i + off],
+                                   "request": grp[1 + 6 * i + off], "request2": grp[2 + 6 * i + off],
                                    "observed": a, "observed2": b})
-    ctx.note_search("reorder", n, nontriv, class_pairs=len(classes), blocks=len(groups),
+    ctx.note_search("reorder", n, nontriv, class_pairs=len(classes), blocks=len(groups), deviations=nbad,
                     rule="letter a + two marks of different non-zero canonical classes (same 256-block, or one from "
-                         "U+03xx) in both orders, alone and next to a third mark, cmap-only font without composites, "
-                         "script forced to Latn (default shaper): both orders must give the same glyphs; marks whose "
-                         "modified class is 0 are excluded")
+                         "U+03xx) in both orders, alone, next to a third mark, and on the precomposed base U+00E4 (the "
+                         "font has only a and U+0308) followed by a later unrelated cluster x + 1..3 variation selectors; "
+                         "cmap-only font without composites, script forced to Latn (default shaper): both orders must "
+                         "give the same glyphs and no .notdef; marks whose modified class is 0 are excluded")
+
+
+def context_pieces(r, marks):
+    """texts that may stand before / after a starter + marks cluster; each starts with a non-mark (or is a lone run
+    of selectors at the very start of the text), so the normalizer treats it as clusters of its own"""
+    x = r.choice([0x78, 0x4E00, 0x2205, 0x41])
+    k = r.below(10)
+    if k == 0: return []
+    if k == 1: return [x]
+    if k == 2: return [x] + vs_run(r)                              # base + selector(s)
+    if k == 3: return [x] + vs_run(r, lo=2)                        # base + several selectors
+    if k == 4: return [x, r.choice(marks)] + vs_run(r)             # selector after a mark, at the end of the run
+    if k == 5: return [x] + vs_run(r) + [r.choice(marks)]          # selector inside the mark run
+    if k == 6: return [x, r.choice(marks)] + vs_run(r) + [r.choice(marks)]
+    if k == 7: return [0x20, x] + vs_run(r)                        # after a simple character
+    if k == 8: return [x, 0xE4, r.choice(marks)] + vs_run(r)       # precomposed base + mark + selector
+    return [x] + vs_run(r) + [x] + vs_run(r)
+
+
+def search_context(ctx, shim, U, RD, RC, r, n_fonts, per_font):
+    """metamorphic: the default shaper normalizes cluster by cluster, so on a cmap-only font shaping P ++ A ++ S
+    gives the glyphs of P, of A and of S shaped on their own, when A and S start with a non-mark character.
+    A = starter + marks (needing decomposition / reordering / recomposition), P and S are drawn from
+    `context_pieces` (most of them contain variation selectors)."""
+    starters, marks = lgc_material(U, RD, RC)
+    by_base = {}
+    for c in RD:
+        if 0xD800 <= c <= 0xDFFF:
+            continue
+        f = nfd([c])
+        if all(x in marks for x in f[1:]) and len(f) > 1:
+            by_base.setdefault(f[0], []).append(c)
+    P = pools(U)
+    ctx_chars = [0x78, 0x4E00, 0x2205, 0x41, 0x20, 0xE4]
+    groups, meta = [], []
+    for fi in range(n_fonts):
+        ss = r.sample(starters, 6)
+        leaves, comps = set(marks), set()
+        for s_ in ss:
+            base = nfd([s_])[0]
+            leaves.add(base)
+            comps |= set(by_base.get(base, [])) | {s_}
+        mode = r.below(4)
+        sup = set(leaves) | set(ctx_chars)
+        if mode == 0: sup |= comps
+        elif mode == 1: sup |= {c for c in comps if r.chance(1, 2)}
+        elif mode == 2: sup |= {c for c in comps if r.chance(1, 2)}; sup -= {c for c in ss if r.chance(1, 2)}
+        # fonts with and without glyphs for the selectors
+        vs_glyphs = r.chance(2, 3)
+        if vs_glyphs: sup |= set(VS_POOL)
+        if r.chance(1, 3): sup.discard(0x20)
+        g = groups_from_set(sorted(sup))
+        # fonts with and without variation-sequence support (cmap format 14)
+        uvs = None
+        if r.chance(1, 2):
+            uvs = []
+            for c in ctx_chars[:4] + ss[:2]:
+                for v in r.sample(VS_POOL, 3):
+                    uvs.append((c, v, None if r.chance(1, 3) else 400 + len(uvs)))
+        lines = [f"font x {build_font(g, uvs).hex()}"]
+        cases = []
+        for _ in range(per_font):
+            s_ = r.choice(ss)
+            if r.chance(3, 4):
+                A = [s_] + [r.choice(marks) for _ in range(r.range(1, 3))]
+            else:
+                A = [r.choice(P["dec"])] + [r.choice(P["seconds"]) for _ in range(r.range(1, 2))]
+                A = [c for c in A if c not in U.vs]
+            if A[0] in U.marks:
+                A = [s_] + A
+            pre = context_pieces(r, marks) if r.chance(1, 2) else []
+            if r.chance(1, 8):
+                pre = vs_run(r)                      # a lone run of selectors at the start of the text
+            post = context_pieces(r, marks)
+            flags = r.choice([0, 0, 4, 4, 8])
+            extra = " nfvs=1" if r.chance(1, 6) else ""
+            parts = [p for p in (pre, A, post) if p]
+            whole = pre + A + post
+            lines.append(shape_line("x", whole, flags, extra))
+            for p in parts:
+                lines.append(shape_line("x", p, flags, extra))
+            cases.append((pre, A, post, len(parts), flags))
+        groups.append(lines)
+        meta.append((g, uvs, vs_glyphs, cases))
+    outs = vlib.run_groups(shim, groups, timeout=1800)
+    n = nontriv = nbad = 0
+    dist = {}
+    for (g, uvs, vs_glyphs, cases), o, grp in zip(meta, outs, groups):
+        i = 1
+        for pre, A, post, np_, flags in cases:
+            whole_out, whole_ln = o[i], grp[i]
+            part_outs, part_lns = o[i + 1:i + 1 + np_], grp[i + 1:i + 1 + np_]
+            i += 1 + np_
+            n += 1
+            got = parse_shape(whole_out)
+            pieces = [parse_shape(x) for x in part_outs]
+            has_vs = any(c in U.vs for c in pre + post)
+            later = any(c in U.vs for c in post)
+            key = ("selector-later" if later else "selector-before" if has_vs else "no-selector") + \
+                  (":format14" if uvs else "") + ("" if vs_glyphs else ":no-selector-glyphs") + f":flags{flags}"
+            dist[key] = dist.get(key, 0) + 1
+            if has_vs:
+                nontriv += 1
+            want = None if any(x is None for x in pieces) else [y for x in pieces for y in x]
+            if got is None or want is None or got != want:
+                nbad += 1
+                if nbad > 3:
+                    continue
+                ctx.violation(f"the glyphs of {['%04X' % c for c in A]} depend on the clusters around it: "
+                              f"{['%04X' % c for c in pre]} + {['%04X' % c for c in A]} + {['%04X' % c for c in post]} "
+                              f"shaped to {got}, the parts on their own to {pieces}",
+                              {"stage": "search", "stream": "context", "font_line": grp[0], "request": whole_ln,
+                               "part_requests": part_lns, "expected_glyphs": want, "observed": whole_out,
+                               "observed_parts": part_outs, "flags": flags, "format14": bool(uvs)})
+    ctx.note_search("context", n, nontriv, distribution=dist, fonts=n_fonts, deviations=nbad,
+                    rule="P ++ A ++ S against P, A, S shaped on their own (same cmap-only font, flags default / "
+                         "PRESERVE_DEFAULT_IGNORABLES / REMOVE_DEFAULT_IGNORABLES, sometimes a not-found-variation-selector "
+                         "glyph): A = Latin/Greek/Cyrillic starter (often precomposed) + 1..3 marks, or a decomposable "
+                         "character + second components; P, S = nothing, a letter, or clusters with one or several "
+                         "consecutive variation selectors after a base, after a mark, inside and at the end of a mark run; "
+                         "fonts with all / half / none of the composites, with and without glyphs for the selectors, "
+                         "with and without a cmap format 14 subtable; the glyph sequences must concatenate; non-trivial = "
+                         "a selector somewhere in the text")
 
 
 def search_cap(ctx, shim):
@@ -824,8 +973,9 @@ def run(ctx):
         "the theorems are about the Lean model of ot_shape_normalize.rs / unicode.rs (Norm.lean); the model is tied to "
         "the crate by the norm-run correspondence stream (hook verif::normalize::normalize on a bare buffer, default "
         "shaper, normalization preference 0..4, cluster level 0/1)",
-        "clusters containing a variation selector, cluster level 2 and shapers that override compose/decompose or "
-        "reorder_marks (Hebrew, Arabic, Indic, USE, ...) are outside the model",
+        "clusters containing a variation selector are modelled (handle_variation_selector_cluster, cmap format 14 as a "
+        "parameter); cluster level 2 and shapers that override compose/decompose or reorder_marks (Hebrew, Arabic, "
+        "Indic, USE, ...) are outside the model",
         "Unicode data are the crate's own tables (Gen/Norm.lean, dumped through hooks); the reference (Gen/NormRef.lean) "
         "is CPython unicodedata %s restricted to characters assigned there" % unicodedata.unidata_version,
     ]
@@ -844,6 +994,7 @@ def run(ctx):
     search_singles(ctx, shim, U, RD, ctx.budget(2, 1))
     search_strings(ctx, shim, U, RD, RC, ctx.rng("strings"), ctx.budget(100, 10 ** 6), ctx.budget(1, 2),
                    ctx.budget(40, 120))
+    search_context(ctx, shim, U, RD, RC, ctx.rng("context"), ctx.budget(60, 600), ctx.budget(40, 100))
 
 
 def replay(ctx, rp):
@@ -852,6 +1003,14 @@ def replay(ctx, rp):
         o = vlib.run_groups(shim, [[rp["font_line"], rp["request"], rp["request2"]]], nproc=1)[0]
         print("order 1:", o[1]); print("order 2:", o[2])
         return 0 if parse_shape(o[1]) == parse_shape(o[2]) and parse_shape(o[1]) is not None else 1
+    if rp.get("stream") == "context":
+        o = vlib.run_groups(shim, [[rp["font_line"], rp["request"]] + rp["part_requests"]], nproc=1)[0]
+        print("whole:", o[1])
+        for x in o[2:]:
+            print("part :", x)
+        parts = [parse_shape(x) for x in o[2:]]
+        ok = parse_shape(o[1]) is not None and None not in parts and parse_shape(o[1]) == [y for x in parts for y in x]
+        return 0 if ok else 1
     if "font_line" in rp and "expected_glyphs" in rp:
         o = vlib.run_groups(shim, [[rp["font_line"], rp["request"]]], nproc=1)[0]
         print("observed:", o[1]); print("expected glyphs:", rp["expected_glyphs"])
